@@ -131,7 +131,21 @@ func init() {
 
 func ruleC08Once(c *Ctx) {
 	p := c.P
-	fireParent := p.Method("boltz", "BaseStore", "fireParentEvent")
+	// the step that queues the parent store's event: a helper of its own, or — once that helper is folded into
+	// the shared tail of Create/Update — the fireEvents call on a flow the parent store made
+	fireParent := p.MethodOpt("boltz", "BaseStore", "fireParentEvent")
+	parentFldOnce := p.Field("boltz", "BaseStore", "parent")
+	isParentFlowFire := func(call ssa.CallInstruction) bool {
+		if !invokeNamed(call, "fireEvents") || !call.Common().IsInvoke() {
+			return false
+		}
+		src, isCall := call.Common().Value.(*ssa.Call)
+		if !isCall || !src.Call.IsInvoke() {
+			return false
+		}
+		ff, _ := loadedField(src.Call.Value)
+		return sameVar(ff, parentFldOnce)
+	}
 	for _, m := range []string{"Create", "Update"} {
 		fn := p.SSAFunc(p.Method("boltz", "BaseStore", m))
 		name := FnName(fn)
@@ -140,8 +154,12 @@ func ruleC08Once(c *Ctx) {
 		loops := loopsOf(fn)
 		var parents, fires, loads []ssa.CallInstruction
 		for _, call := range callsIn(fn) {
-			if isCallTo(call, fireParent) {
+			if fireParent != nil && isCallTo(call, fireParent) {
 				parents = append(parents, call)
+			}
+			if fireParent == nil && isParentFlowFire(call) {
+				parents = append(parents, call)
+				continue
 			}
 			if invokeNamed(call, "fireEvents") {
 				fires = append(fires, call)
@@ -164,6 +182,26 @@ func ruleC08Once(c *Ctx) {
 				}
 			}
 			for _, target := range []ssa.CallInstruction{parents[0], fires[0]} {
+				if fireParent == nil && target == parents[0] {
+					// written in place: the parent's event is queued on every successful path on which a parent exists
+					fi := factsOf(fn)
+					tgt := target
+					ps := &pathSearch{fn: fn, fi: fi, start: persist.Block(), startIdx: instrIndex(persist) + 1,
+						stop: func(in ssa.Instruction) bool { return in == ssa.Instruction(tgt) },
+						skipEdge: func(from, to *ssa.BasicBlock) bool {
+							for f := range fi.edgeFacts(from, to) {
+								if ff, _ := loadedField(f.V); f.Kind == "nonnil" && !f.Pol && sameVar(ff, parentFldOnce) {
+									return true
+								}
+							}
+							return false
+						}}
+					ps.atReturn = func(r *ssa.Return, k knowMap) bool { return !returnIsFailure(fi, r, 0, k) }
+					if ps.run() {
+						ok, why = false, "a successful return is reachable after the persist without the parent store's event although a parent exists"
+					}
+					continue
+				}
 				ri := reachWithoutFrom(fn, persist, func(in ssa.Instruction) bool { return in == ssa.Instruction(target) })
 				for _, r := range returnsOf(fn) {
 					if (ri.entryReach[r.Block()] || r.Block() == persist.Block()) && ri.ReachesSuccess(r, 0) {
@@ -245,7 +283,22 @@ func ruleC08Once(c *Ctx) {
 
 func ruleC08Parent(c *Ctx) {
 	p := c.P
-	fn := p.SSAFunc(p.Method("boltz", "BaseStore", "fireParentEvent"))
+	if fp := p.MethodOpt("boltz", "BaseStore", "fireParentEvent"); fp != nil {
+		ruleC08ParentIn(c, p.SSAFunc(fp), true)
+	} else {
+		// folded into the functions that used to call it
+		for _, m := range []string{"Create", "Update"} {
+			ruleC08ParentIn(c, p.SSAFunc(p.Method("boltz", "BaseStore", m)), false)
+		}
+	}
+	ifc := p.SSAFunc(p.Method("boltz", "EntityChangeState", "initFromChild"))
+	c.Analysed(FnName(ifc))
+	pe := p.Field("boltz", "EntityChangeState", "ParentEvent")
+	ruleC08ParentInit(c, ifc, pe)
+}
+
+func ruleC08ParentIn(c *Ctx, fn *ssa.Function, childIsParam bool) {
+	p := c.P
 	c.Analysed(FnName(fn))
 	fi := ComputeFacts(fn)
 	parentFld := p.Field("boltz", "BaseStore", "parent")
@@ -261,8 +314,22 @@ func ruleC08Parent(c *Ctx) {
 	// the flow that is fired: made by a call on the parent store, initialised from the child's flow (here, or by
 	// the parent's constructor when it is handed the child's flow), then fired — all only when a parent exists
 	var fire, mk ssa.CallInstruction
+	var ownFlow ssa.Value
 	for _, call := range callsIn(fn) {
 		if invokeNamed(call, "fireEvents") {
+			if !childIsParam {
+				// among several: the one on a flow made by the parent store; the other one is the store's own flow
+				src, isCall := call.Common().Value.(*ssa.Call)
+				isParentFlow := false
+				if isCall && src.Call.IsInvoke() {
+					ff, _ := loadedField(src.Call.Value)
+					isParentFlow = sameVar(ff, parentFld)
+				}
+				if !isParentFlow {
+					ownFlow = callRecv(call.Common())
+					continue
+				}
+			}
 			fire = call
 			n++
 		}
@@ -289,8 +356,23 @@ func ruleC08Parent(c *Ctx) {
 			}
 		}
 	}
-	if mk != nil && len(fn.Params) > 1 {
-		child := ssa.Value(fn.Params[1])
+	if mk != nil && (len(fn.Params) > 1 || !childIsParam) {
+		var child ssa.Value
+		if childIsParam {
+			child = ssa.Value(fn.Params[1])
+		} else {
+			child = ownFlow
+			if child != nil {
+				// handed on as the change-flow interface
+				for _, call := range callsIn(fn) {
+					if calledInit(call) && len(call.Common().Args) == 1 {
+						if mi, isMI := call.Common().Args[0].(*ssa.MakeInterface); isMI && mi.X == ownFlow {
+							child = mi
+						}
+					}
+				}
+			}
+		}
 		inited := false
 		for _, call := range callsIn(fn) {
 			if calledInit(call) && call.Common().IsInvoke() && call.Common().Value == mk.(ssa.Value) && len(call.Common().Args) == 1 && call.Common().Args[0] == child {
@@ -340,9 +422,10 @@ func ruleC08Parent(c *Ctx) {
 		}
 	}
 	c.Check(ok && n == 3, "C08.PARENT", FnName(fn), p.Pos(fn.Pos()), "the parent flow is created, initialised from the child and fired only when a parent store exists", why+fmt.Sprintf(" (steps found: %d of 3)", n))
-	ifc := p.SSAFunc(p.Method("boltz", "EntityChangeState", "initFromChild"))
-	c.Analysed(FnName(ifc))
-	pe := p.Field("boltz", "EntityChangeState", "ParentEvent")
+}
+
+func ruleC08ParentInit(c *Ctx, ifc *ssa.Function, pe *types.Var) {
+	p := c.P
 	okPE := false
 	for _, b := range ifc.Blocks {
 		for _, in := range b.Instrs {
